@@ -942,6 +942,9 @@ func (w *World) runCall(t *core.Task, o *CallObs) {
 				r := OpRec{Op: "send", Arg: op.Arg, Start: stepsNow(w.S), StartT: time.Now()}
 				r.Err = stream.Send(mkMsg(p.ReqMsgs[op.Arg]))
 				w.rec(o, false, r)
+			case "sleep":
+				// the caller is busy elsewhere for a while (fake clock)
+				time.Sleep(time.Duration(op.Arg) * time.Microsecond)
 			case "cancel":
 				w.opGate(o, "cancel")
 				cancel()
@@ -1012,6 +1015,9 @@ func (w *World) runCall(t *core.Task, o *CallObs) {
 						break
 					}
 				}
+			case "sleep":
+				// the caller is busy elsewhere for a while (fake clock)
+				time.Sleep(time.Duration(op.Arg) * time.Microsecond)
 			case "cancel":
 				w.opGate(o, "cancel")
 				cancel()
@@ -1101,6 +1107,9 @@ func (w *World) runCall(t *core.Task, o *CallObs) {
 					r := OpRec{Op: "closeresp", Start: stepsNow(w.S), StartT: time.Now()}
 					r.Err = stream.CloseResponse()
 					w.rec(o, rcv, r)
+				case "sleep":
+					// the caller is busy elsewhere for a while (fake clock)
+					time.Sleep(time.Duration(op.Arg) * time.Microsecond)
 				case "cancel":
 					w.opGate(o, "cancel")
 					cancel()
